@@ -99,6 +99,10 @@ def rand_scenario(
     p_via_config=0.0,
     p_exc_same=0.0,
     p_attempt_timeout=0.0,
+    p_res_none=0.0,
+    falsy_objects=False,
+    poll_kinds=False,
+    p_empty_table=0.0,
 ):
     n = rng.randint(*max_attempts)
     nout = n + 1
@@ -106,6 +110,8 @@ def rand_scenario(
     per_class = {k: rng.randint(0, 3) for k in rng.sample(CLASSES, rng.choice([0, 0, 1, 2, 3]))}
     cs = rng.sample(CLASSES, rng.choice([0, 0, 1, 2, 4]))
     default = rng.random() < 0.85 or not cs
+    if p_empty_table and rng.random() < p_empty_table:
+        cs, default = [], False  # strategies={} and no default: every retryable class lacks a strategy
     legacy = [x for x in (["default"] + cs) if rng.random() < 0.25]
     budget = None
     if rng.random() < p_budget:
@@ -133,6 +139,12 @@ def rand_scenario(
     if p_strategy_objects and rng.random() < p_strategy_objects:
         cand = [x for x in (["default"] if default else []) + cs if x not in legacy]
         cfg["strategy_objects"] = [x for x in cand if rng.random() < 0.7]
+        if falsy_objects:
+            cfg["strategy_objects_falsy"] = [x for x in cfg["strategy_objects"] if rng.random() < 0.5]
+    if falsy_objects and cfg["budget"] and rng.random() < 0.3:
+        cfg["budget"]["falsy"] = True
+    if falsy_objects and cfg["breaker"] and rng.random() < 0.3:
+        cfg["breaker"]["falsy"] = True
     place = default_place()
     has_handler = rng.random() < p_handler
     if has_handler:
@@ -153,12 +165,15 @@ def rand_scenario(
             for i in range(nout - 1):
                 if outs[i][0] == "ok":
                     outs[i] = ["exc", rng.choice(RETRYABLE), None]
+        if p_res_none and rng.random() < p_res_none:
+            for j in range(nout):
+                if outs[j][0] == "res" and rng.random() < 0.6:
+                    outs[j] = ["res_none", outs[j][1], outs[j][2]]
         if p_exc_same and rng.random() < p_exc_same:
             # a client that re-raises one cached exception instance on consecutive attempts
-            k_same = rng.choice(RETRYABLE)
             j0 = rng.randrange(max(1, nout - 1))
             for j in range(j0, min(nout, j0 + rng.randint(2, 3))):
-                outs[j] = ["exc_same", k_same, None]
+                outs[j] = ["exc_same", rng.choice(RETRYABLE), rng.choice([None, 0.5, 3.0])]
         handler = None
         if has_handler:
             pool = ["sleep", "sleep", "sleep", "defer", "abort"]
@@ -195,6 +210,7 @@ def rand_scenario(
         "sleeper_kind": rng.choice(["async", "sync", "lambda", "callable", "falsy"] if exotic_callables else ["async", "async", "sync"]),
         "timeline": rng.choice([False, True, "obj"]),
         "via_config": bool(p_via_config and rng.random() < p_via_config),
+        "poll_kind": rng.choice(["bool", "int", "str", "obj"]) if poll_kinds else "bool",
         "poll": rng.random() < 0.15,
         "calls": calls,
         "fault": None,
